@@ -113,7 +113,7 @@ def predict(facts, groups, semiring):
 
 
 # ------------------------------------------------------------------ (a) ConstraintAD.update_weights directly
-def tie_update_weights(ctx, n):
+def tie_update_weights(ctx, n, model_ok=True):
     from problog.constraint import ConstraintAD
     from problog.evaluator import SemiringProbability, SemiringLogProbability
     from problog.errors import InvalidValue
@@ -165,7 +165,7 @@ def tie_update_weights(ctx, n):
             if (s > 1 + T9 and impl[0] == "ok") or (0 <= s <= 1 and impl[0] == "raise" and all(p >= 0 for p in eff)):
                 ctx.violation("update_weights with head weights %r (sum %s): %s" % (eff, float(s), impl[0]),
                               {"nodes": nodes, "weights": {str(k_): v for k_, v in weights.items()}, "sum": str(s)}, klass=None)
-            else:
+            elif model_ok:
                 ctx.broken.append("correspondence:C30_ad_sum_prob predicts %s but update_weights %s on %r" % (pred, impl[0], eff))
         if near(sum(eff), [1 + T9, -T9]):
             ctx.count("update_weights: sum within 1e-14 of a threshold (not compared)")
@@ -203,8 +203,10 @@ def tie_update_weights(ctx, n):
                 if (s > 1 + T9 and impl_l == "ok") or (s <= 1 and impl_l == "raise"):
                     ctx.violation("log update_weights with head probabilities %r (sum %s): %s" % (eff_l, float(s), impl_l),
                                   {"nodes": nodes, "probs": eff_l}, klass=None)
-                else:
+                elif model_ok:
                     ctx.broken.append("correspondence:C30_ad_sum_log predicts raise=%s but update_weights %s on %r" % (pred_l, impl_l, eff_l))
+    if not model_ok:
+        return
     try:
         bad = ctx.coq_failing(HEADER, terms, name="uw")
     except RuntimeError as e:
@@ -365,7 +367,7 @@ def minimise(prog_src, still_bad):
     return "\n".join(lines)
 
 
-def run_programs(ctx, n):
+def run_programs(ctx, n, model_ok=True):
     from problog.evaluator import SemiringProbability, SemiringLogProbability
     progs = [gen_program(ctx.rng) for _ in range(n)]
     # fixed witnesses first (corpus of the design document)
@@ -438,7 +440,7 @@ def run_programs(ctx, n):
             pred = predict(g_facts, g_groups, srm)
             if pred is None:
                 ctx.count("prediction skipped: value within 1e-14 of a threshold")
-            elif pred != raised:
+            elif pred != raised and model_ok:
                 ctx.broken.append("correspondence:theorems predict raise=%s, pipeline (%s) %s on program %r"
                                   % (pred, sr, "raises" if raised else "answers", p["src"]))
         # ---- generated extract_weights evaluated by Coq on the real formula's atoms and constraints
@@ -471,6 +473,8 @@ def run_programs(ctx, n):
             code = 0 if el[0] == "ok" else {"InvalidValue": 20, "ValueError": 23}.get(el[1], 99)
             terms.append("Z.eqb (res_status (extract_weights (log_sr QEops) %s %s)) %d" % (atoms_t, cs_t, code))
             metas.append((p["src"], "log", el[0]))
+    if not model_ok:
+        return
     try:
         bad = ctx.coq_failing(HEADER, terms, name="ew")
     except RuntimeError as e:
@@ -496,19 +500,25 @@ def run(ctx):
         "a probabilistic fact that is never grounded (irrelevant to every query) is outside the checked statement",
         "self.nodes (a set) is modelled as a list; over the reals the sum does not depend on the order",
     ]
-    generate(ctx)
-    ctx.log("translated; building proof cone")
-    ok = ctx.prove("C30/Props.v")
+    ok = False
+    try:
+        generate(ctx)
+        ctx.log("translated; building proof cone")
+        ok = ctx.prove("C30/Props.v")
+    except Exception as e:  # noqa  (a translator fails closed on unknown syntax: an obligation is broken, the judges still run)
+        ctx.cov["obligations"] = max(ctx.cov["obligations"], 1)
+        ctx.broken.append("translator:cannot translate the current sources (%s: %s)" % (type(e).__name__, str(e)[:300]))
     ctx.log("Props.v:", "ok" if ok else "BROKEN")
     if ok and ctx.tier == "thorough":
         ctx.coqchk("PL.C30.Props")
         ctx.log("coqchk done")
-    if not ok:
-        return
-    with open(os.path.join(vf.THEORIES, "C30", "Findings.v")) as f:
-        rc, out = ctx.coq_run(f.read(), "Findings")
-    ctx.cov["findings_witness_partial_group"] = "checks on the generated model" if rc == 0 else "no longer checks"
+    if ok:
+        with open(os.path.join(vf.THEORIES, "C30", "Findings.v")) as f:
+            rc, out = ctx.coq_run(f.read(), "Findings")
+        ctx.cov["findings_witness_partial_group"] = "checks on the generated model" if rc == 0 else "no longer checks"
+    # the implementation-side runs and the property-level judge do not depend on the Coq side:
+    # with a broken model they still search for a concrete failing input
     ctx.log("update_weights tie")
-    tie_update_weights(ctx, ctx.n(300, 5000))
+    tie_update_weights(ctx, ctx.n(300, 5000), model_ok=ok)
     ctx.log("programs")
-    run_programs(ctx, ctx.n(250, 5000))
+    run_programs(ctx, ctx.n(250, 5000), model_ok=ok)
